@@ -146,7 +146,7 @@ Definition winv_b (c : cfg) (s : state) (j : nat) (p : wpc) : bool :=
   imp (w_holds_o p) (holds (olock s) (TW j)) &&
   imp (w_holds_r p) (holds (rlock s) (TW j)) &&
   imp (w_main p) (Nat.leb 1 (nreq s)) &&
-  imp (w_scx p) (closed s) &&
+  imp (w_scx p) (negb (conn s)) &&
   imp (w_sc p) (Nat.eqb (nreq s) 0) &&
   imp (match p with WK6 => true | _ => false end) (Nat.eqb (nreq s) 0 || negb (conn s)) &&
   imp (w_exc p) (wc s) &&
